@@ -74,7 +74,21 @@ def unit_cases(ctx):
     if ctx.thorough():
         for t in itertools.product(range(0x80, 0x100, 1), BOUNDARY, BOUNDARY):
             cases.append(bytes(t))
+    cases += long_cases(ctx)
     return cases
+
+
+def long_cases(ctx):
+    """"all byte strings" includes long ones: code points straddling, and sequences cut short exactly at, the offsets an
+    implementation might process in blocks (powers of two from 4 KiB to 128 KiB, and 16384 = the transport read size)."""
+    out = []
+    for B in ((4096, 16384, 65536, 131072) if ctx.thorough() else (16384, 65536, 131072)):
+        for w in ("\u00e9".encode(), "\u20ac".encode(), "\U0001f600".encode()):
+            for k in range(1, len(w)):
+                out.append(b"a" * (B - k) + w + b"tail")                       # well-formed, straddles offset B
+                out.append(b"a" * (B - k) + w[:k] + b"plain ascii tail")       # cut short exactly at B, ASCII follows
+                out.append(b"a" * (B - k) + w[:k] + w)                         # cut short at B, a well-formed one follows
+    return out
 
 
 def classify(bs, ok):
@@ -186,6 +200,14 @@ def run_e2e(ctx):
                         if api == "recv_data" and (obs[0] != "ret" or obs[1] != p or obs[2] != 1):
                             ctx.violate("skip-passthrough", "bytes-changed", inp, "returns (1, payload)", str(obs),
                                         size=len(p) + len(frs))
+                        # the str-returning call cannot pass ill-formed bytes through: it returns the text when there is one and
+                        # raises the documented payload exception otherwise (C17_recv_no_internal)
+                        if api == "recv" and wf and (obs[0] != "ret" or obs[1] != p):
+                            ctx.violate("skip-passthrough", "well-formed-not-delivered", inp, "returns the text", str(obs),
+                                        size=len(p) + len(frs))
+                        if api == "recv" and not wf and obs != ("exn", "PAYLOAD"):
+                            ctx.violate("skip-passthrough", "recv-undecodable-not-payload-exception", inp, "raises PAYLOAD", str(obs),
+                                        size=len(p) + len(frs))
         # "nothing is delivered": after a rejected message the NEXT message is judged and delivered on its own
         if not wf:
             nxt = "n\u00e4chste".encode()
@@ -233,13 +255,45 @@ def run_e2e(ctx):
                 ctx.violate("close-reason-iff-wellformed", "internal-error", inp, "raises PROTO", str(obs), size=len(p))
 
 
+def run_e2e_long(ctx):
+    """long text messages through the receive API: one frame, two fragments of ~B/2+ bytes, a cut exactly at the block offset."""
+    rnd = ctx.rng("e2e-long")
+    cases = long_cases(ctx)
+    if not ctx.thorough():
+        cases = rnd.sample(cases, 12)
+    spec = dict(zip(cases, common.run_driver_parallel(["s-utf8 " + hexarg(p) for p in cases])))
+    for p in cases:
+        wf = spec[p] == "1"
+        n = len(p)
+        B = max(b for b in (4096, 16384, 65536, 131072) if b <= n)
+        for frs in ([p], [p[:n * 5 // 8], p[n * 5 // 8:]], [p[:B], p[B:]], [p[:B - 1], p[B - 1:B + 1], p[B + 1:]]):
+            stream = b"".join(simnet.srv_frame(1 if i == 0 else 0, fr, fin=1 if i == len(frs) - 1 else 0) for i, fr in enumerate(frs))
+            ws, sock = simnet.make_ws([("chunk", stream)], mask_key=b"abcd")
+            try:
+                r = ws.recv_data()
+                obs = ("ret", bytes(r[1]), r[0])
+            except Exception as e:  # noqa
+                obs = ("exn", common.canon_exc(e))
+            ctx.case(key=("L", n, p[B - 4:B + 6], len(frs)), nontrivial=True, cls=f"e2e-long:B={B}:wf={int(wf)}:frags={len(frs)}")
+            inp = {"op": "long-text-message", "length": n, "around_block_offset": p[B - 4:B + 6].hex(), "block_offset": B,
+                   "fragments": [len(f) for f in frs]}
+            if wf and (obs[0] != "ret" or obs[1] != p):
+                ctx.violate("text-delivered-iff-wellformed", "well-formed-not-delivered", inp, "returns the payload", str(obs)[:200], size=n)
+            if not wf and obs[0] == "ret":
+                ctx.violate("text-delivered-iff-wellformed", "ill-formed-delivered", inp, "raises PAYLOAD or PROTO", str(obs)[:200], size=n)
+            if not wf and obs[0] == "exn" and obs[1] not in ("PAYLOAD", "PROTO"):
+                ctx.violate("text-delivered-iff-wellformed", "internal-error", inp, "raises PAYLOAD or PROTO", str(obs)[:200], size=n)
+
+
 def run(ctx):
     ctx.rule = ("unit: every byte string of length <= 2, boundary-byte products of length 3-4, every prefix of "
                 "well-formed samples, random mixes (non-trivial = contains a byte >= 0x80); e2e: text payloads x "
                 "fragmentations (<= 3 cuts) x validation on/off x recv/recv_data, close reasons "
-                "(non-trivial = fragmented or ill-formed)")
+                "(non-trivial = fragmented or ill-formed); long strings (4 KiB..128 KiB) with a code point straddling / cut short at "
+                "block offsets, unit and through recv_data in 1-3 fragments")
     run_unit(ctx)
     run_e2e(ctx)
+    run_e2e_long(ctx)
 
 
 def search(ctx):
